@@ -16,6 +16,7 @@ CONSTANTS
   CloseConn = TRUE
   HasFallback = TRUE
   AllowClose = FALSE
+  AllowDo = TRUE
   IdleCollects = 2
   RtoChanges = 2
   DeadlineTicks = FALSE
